@@ -42,7 +42,7 @@ def render(decoder, shape, s, e=BASE_E):
     p = TracesParser(E.codes(), {}, {})
     evs = [E.ev(decoder, 1, s), E.ev(decoder, 2, e)] if shape == 'se' else [E.ev(decoder, 0, s)]
     out = [t for t in p.feed_generator(E.restamp(evs)) if t.ktraces[0].eventid == evs[0].eventid]
-    return str(out[-1])
+    return E.stable_str(out[-1])
 
 
 def declared(qualname):
